@@ -16,11 +16,14 @@
 (*  S3 a verdict is good with floor(2V/3)+1 positive votes, bad with 0, wonky with   *)
 (*     floor(V/3); any other count is rejected                                       *)
 (*  S4 reports judged bad or wonky are removed from pending availability             *)
-(* Everything else of section 10 (signature contexts, judgement age, ordering of     *)
-(* the extrinsic, culprit / fault admissibility) is reconstructed from memory and    *)
-(* used only in the strict reading `StrictValid`: the code may REJECT a block only   *)
-(* if the strict reading rejects it, and must reject what S1/S3 force it to reject   *)
-(* (MustReject); in between either outcome is accepted.                              *)
+(* The rest of section 10 (signature contexts, judgement age, ordering of the        *)
+(* extrinsic, culprit / fault admissibility) is bound too, beyond the statement:     *)
+(* clauses that are certain (SureInvalid; each corresponds to an error class of the  *)
+(* official vectors) must lead to refusal; two clauses reconstructed from memory     *)
+(* that the statement does not settle (a fault whose target is neither good nor bad  *)
+(* in psi'; a verdict whose number of judgements is not floor(2V/3)+1, which the     *)
+(* decoder enforces elsewhere) are accepted either way.  A block may be REFUSED only *)
+(* if the strict reading (all clauses) refuses it.                                   *)
 EXTENDS Integers, Sequences, FiniteSets
 
 SetOf(s) == {s[i] : i \in 1..Len(s)}
@@ -60,20 +63,31 @@ MustReject(V, psi, vs) ==
   \/ \E i \in 1..Len(vs) : vs[i].t \in Judged(psi)                     \* S1: a judged report is not judged again
   \/ \E i, j \in 1..Len(vs) : i < j /\ vs[i].t = vs[j].t               \* S1: conflicting / repeated verdicts in one block
 
-\* ---- strict reading of (10.7)-(10.14), (10.5), (10.6) on summaries; `allowed` = keys of kappa and lambda
-SummaryValid(V, psi, vs, cs, fs, allowed) ==
+\* ---- the rest of section 10 on summaries; `allowed` = keys of kappa and lambda.
+\* SureInvalid: clauses that are certain (each is one of the repository's / the official vectors' error
+\* classes: verdicts_not_sorted_unique, culprits_/faults_not_sorted_unique, not_enough_faults,
+\* not_enough_culprits, culprits_verdict_not_bad, bad_guarantor_key / bad_auditor_key,
+\* offender_already_reported, fault_verdict_wrong).  An accepted block must not be SureInvalid.
+SureInvalid(V, psi, vs, cs, fs, allowed) ==
   LET p2 == PsiNext(V, psi, vs, cs, fs) IN
-  /\ ~MustReject(V, psi, vs)
-  /\ StrictlySorted([i \in 1..Len(vs) |-> vs[i].t])                                           \* 10.7
-  /\ StrictlySorted([i \in 1..Len(cs) |-> cs[i].k])                                           \* 10.8
-  /\ StrictlySorted([i \in 1..Len(fs) |-> fs[i].k])
-  /\ \A i \in 1..Len(vs) : Class(V, vs[i].s) = "good" => \E j \in 1..Len(fs) : fs[j].t = vs[i].t          \* 10.13
-  /\ \A i \in 1..Len(vs) : Class(V, vs[i].s) = "bad"
-        => Cardinality({j \in 1..Len(cs) : cs[j].t = vs[i].t}) >= 2                           \* 10.14
-  /\ \A j \in 1..Len(cs) : cs[j].t \in SetOf(p2.b) /\ cs[j].k \in allowed \ SetOf(psi.o)      \* 10.5
-  /\ \A j \in 1..Len(fs) : /\ fs[j].k \in allowed \ SetOf(psi.o)                              \* 10.6
-                           /\ (fs[j].t \in SetOf(p2.b)) # (fs[j].t \in SetOf(p2.g))
-                           /\ (fs[j].t \in SetOf(p2.b)) = fs[j].v
+  \/ MustReject(V, psi, vs)
+  \/ ~StrictlySorted([i \in 1..Len(vs) |-> vs[i].t])                                           \* 10.7
+  \/ ~StrictlySorted([i \in 1..Len(cs) |-> cs[i].k])                                           \* 10.8
+  \/ ~StrictlySorted([i \in 1..Len(fs) |-> fs[i].k])
+  \/ \E i \in 1..Len(vs) : Class(V, vs[i].s) = "good" /\ ~\E j \in 1..Len(fs) : fs[j].t = vs[i].t      \* 10.13
+  \/ \E i \in 1..Len(vs) : Class(V, vs[i].s) = "bad"
+        /\ Cardinality({j \in 1..Len(cs) : cs[j].t = vs[i].t}) < 2                              \* 10.14
+  \/ \E j \in 1..Len(cs) : cs[j].t \notin SetOf(p2.b) \/ cs[j].k \notin allowed \ SetOf(psi.o)    \* 10.5
+  \/ \E j \in 1..Len(fs) : \/ fs[j].k \notin allowed \ SetOf(psi.o)                              \* 10.6
+                           \/ (fs[j].v /\ fs[j].t \in SetOf(p2.g))          \* the vote agrees with the verdict
+                           \/ (~fs[j].v /\ fs[j].t \in SetOf(p2.b))
+\* Unsure (accepted either way): 10.6 read as "the target of a fault is judged good or bad in psi'"
+FaultTargetsJudged(V, psi, vs, cs, fs) ==
+  LET p2 == PsiNext(V, psi, vs, cs, fs) IN
+  \A j \in 1..Len(fs) : fs[j].t \in SetOf(p2.b) \cup SetOf(p2.g)
+\* strict reading: a block may be refused only if this is false
+SummaryValid(V, psi, vs, cs, fs, allowed) ==
+  ~SureInvalid(V, psi, vs, cs, fs, allowed) /\ FaultTargetsJudged(V, psi, vs, cs, fs)
 
 \* ---- S1 / S2 as predicates on records
 Disjoint(psi) == /\ SetOf(psi.g) \cap SetOf(psi.b) = {}
